@@ -6,7 +6,7 @@
 (* arguments; `pre` = what was observable before the interrupted operation.*)
 EXTENDS CommitLogCrash, TLC, Json
 
-CONSTANTS MaxOps, MaxPost, MaxRecs, MaxBatch, MaxEpoch, MaxHit, MaxRecCrash, CapSet, RetSet, CompactSet, AgeSet, Keys, Taints, GenMode
+CONSTANTS MaxSkip, MaxOps, MaxPost, MaxRecs, MaxBatch, MaxEpoch, MaxHit, MaxRecCrash, CapSet, RetSet, CompactSet, AgeSet, Keys, Taints, GenMode
 VARIABLES phase, pre, last, nOps, nPost, nVal, hist, pts, nRec
 mcvars == <<vars, phase, pre, last, nOps, nPost, nVal, hist, pts, nRec>>
 
@@ -31,6 +31,14 @@ Ops == IF ~mem.up THEN {} ELSE
   \cup {[a |-> "AppendSet", recs |-> <<[ep |-> CurEpoch, val |-> nVal + 1, key |-> key],
                                       [ep |-> CurEpoch + 1, val |-> nVal + 2, key |-> key]>>] :
          key \in {k \in (IF cfg.compact THEN Keys ELSE {"a"}) : nVal + 2 <= MaxRecs /\ CurEpoch + 1 <= MaxEpoch}}
+  \* replicated append from a leader whose log was compacted: the message set has
+  \* offset gaps (in front of the first record and / or between the two); same epoch
+  \* or the second record in the next one
+  \cup {[a |-> "AppendSet", skip |-> <<gg[1], gg[2]>>,
+         recs |-> <<[ep |-> CurEpoch, val |-> nVal + 1, key |-> "a"],
+                    [ep |-> CurEpoch + de, val |-> nVal + 2, key |-> "a"]>>] :
+         gg \in {x \in (0..MaxSkip) \X (0..MaxSkip) : x[1] + x[2] > 0 /\ nVal + 2 <= MaxRecs},
+         de \in {d \in 0..1 : CurEpoch + d <= MaxEpoch}}
   \cup {[a |-> "Truncate", o |-> o] : o \in {o \in 0..(NewestOf(mem) + 1) : o > mem.hw}}
   \cup {[a |-> "SetHW", h |-> h] : h \in (mem.hw + 1)..NewestOf(mem)}
   \cup {[a |-> "NewLeaderEpoch", e |-> CurEpoch + 1] : x \in {1} \cap {y \in {1} : CurEpoch + 1 <= MaxEpoch}}
@@ -49,8 +57,17 @@ Tags(op) ==
       ps == PointsOf(fs, mem, op)
       written(k) == Len(Flat([i \in 1..Len(pl) |-> IF pl[i].i = "wlog" /\ pl[i].k = k THEN pl[i].recs ELSE <<>>]))
       shrinks == \E i \in 1..Len(pl) : pl[i].i = "mvlog" /\ written(pl[i].k) < Len(Get(fs.lf, pl[i].t))
+      \* the operation works on a SPARSE log: offsets missing between two records or in
+      \* front of the first record of a segment (compaction, or a replicated message set
+      \* of a compacted leader) - every crash point is then a different situation
+      \* (index rebuilt from a log whose offsets are not consecutive)
+      sc0 == Sc
+      sparse == \/ \E i \in 1..Len(sc0) - 1 : sc0[i + 1].off > sc0[i].off + 1
+                \/ \E j \in 1..Len(mem.segs) : mem.segs[j].first \notin {-1, mem.segs[j].base}
+                \/ ("skip" \in DOMAIN op /\ \E i \in 1..Len(op.skip) : op.skip[i] > 0)
   IN {<<ps[i], op.a>> : i \in 1..Len(ps)}
      \cup (IF shrinks THEN {<<"replace.after_rename_log", op.a, "shrinks">>} ELSE {})
+     \cup (IF sparse THEN {<<ps[i], op.a, "sparse">> : i \in 1..Len(ps)} ELSE {})
 
 Snapshot(op, p) == [sc |-> Sc, nw |-> NewestOf(mem), lastBase |-> Last(mem.segs).base, hw |-> mem.hw, op |-> op, p |-> p]
 
